@@ -66,7 +66,9 @@ def inl(children) -> tuple:
         elif t == "Image":
             out.append(("IMG", c.dest, c.title or None, inl(c.children)))
         elif t in ("AutoLink", "Url"):
-            out.append(("AUTO", c.dest))
+            # resolved target AND the text as written (the reader adds 'http://' to 'www.' links and 'mailto:' to addresses)
+            written = "".join(ch.children for ch in (c.children if isinstance(c.children, list) else []) if isinstance(getattr(ch, "children", None), str))
+            out.append(("AUTO", c.dest, written))
         elif t == "InlineHTML":
             out.append(("HTML", norm_ws(c.children)))
         elif t == "FootnoteRef":
